@@ -26,10 +26,13 @@ RULE = ("case = (n in 2..10, lower/upper bound vector with known grand coalition
         "value == sum_S (u-l)/C(n,|S|); value == sum_i Shapley_i(vertex game of i) - v(N); value >= 0 when l<=u; "
         "value ~ 0 iff all intervals degenerate; for sampled completions inside the box the real Shapley value of each "
         "player never exceeds the library's per-player maximum. Tolerance 1e-10*(1+sum|bounds|). Distinct = hash of "
-        "the bound vector; non-trivial = at least two different interval widths.")
+        "the bound vector; non-trivial = at least two different interval widths. Additionally one SYMBOLIC execution per n=2..7 "
+        "(8 in thorough): bounds are linear forms (vmon/linform.py) pushed through the real code; every coefficient of the "
+        "resulting form is compared with both closed forms, which decides the identity for all real bound vectors of that n.")
 SHARDS = {"quick": 4, "thorough": 16}
 BUDGET = {"quick": 35, "thorough": 360}
-REQUIRED = ["identity_checks", "max_shapley_checks", "domination_checks", "unit_perturbations", "duck_typed_games"]
+REQUIRED = ["identity_checks", "max_shapley_checks", "domination_checks", "unit_perturbations", "duck_typed_games",
+            "symbolic_executions"]
 
 
 class DuckIncompleteGame:
@@ -207,9 +210,81 @@ def run_case(ctx, case) -> None:
                      "lower_head": lo[:8], "upper_head": up[:8]})
 
 
+class SymbolicGame(DuckIncompleteGame):
+    """Duck-typed IncompleteGame whose bounds are symbolic linear forms (vmon.linform.Lin)."""
+
+    def __init__(self, n):
+        from ..linform import Lin
+        size = 1 << n
+        self.number_of_players = n
+        lo = [Lin.var(f"l{s}") for s in range(size)]
+        up = [Lin.var(f"u{s}") for s in range(size)]
+        lo[0] = up[0] = Lin()
+        lo[size - 1] = up[size - 1] = Lin.var("vN")
+        self._lo = np.empty(size, dtype=object)
+        self._up = np.empty(size, dtype=object)
+        self._lo[:] = lo
+        self._up[:] = up
+        self._known = np.zeros(size, dtype=bool)
+        self._known[0] = self._known[size - 1] = True
+
+
+def symbolic_case(ctx, n: int) -> None:
+    """One execution of the real compute_exploitability on symbolic bounds: decides the identity for ALL real bound
+    vectors of this player count (the code has no data-dependent branch; a comparison would raise)."""
+    from math import comb
+    from fractions import Fraction
+    case = {"n": n, "family": "symbolic", "symbolic": True}
+    size = 1 << n
+    try:
+        form = compute_exploitability(SymbolicGame(n))
+    except Exception as exc:
+        ctx.violation("exploitability-raised", f"symbolic bounds, n={n}: {type(exc).__name__}: {exc}", case)
+        return
+    ctx.count("symbolic_executions")
+    # reference coefficients: sum_S (u_S - l_S)/C(n,|S|); the grand coalition's u and l are the same symbol vN
+    want = {}
+    for m in range(1, size - 1):
+        w = 1.0 / comb(n, popcount(m))
+        want[f"u{m}"] = w
+        want[f"l{m}"] = -w
+    # second closed form: sum_i Shapley_i(vertex game_i) - vN, coefficients from the n!-orderings definition
+    shap = ref_shapley_perm if n <= 6 else ref_shapley_subset
+    want2 = {k: Fraction(0) for k in want}
+    vN = Fraction(-1)
+    for m in range(1, size):
+        unit = [Fraction(0)] * size
+        unit[m] = Fraction(1)
+        phi = shap(n, unit)
+        for i in range(n):
+            if m == size - 1:
+                vN += phi[i]
+            elif m >> i & 1:
+                want2[f"u{m}"] += phi[i]
+            else:
+                want2[f"l{m}"] += phi[i]
+    got = dict(form.c)
+    for name in sorted(set(want) | set(got) | {"vN"}):
+        g = got.get(name, 0.0)
+        w1 = want.get(name, 0.0)
+        w2 = float(want2.get(name, vN if name == "vN" else 0))
+        ctx.count("symbolic_coefficients_checked")
+        if abs(g - w1) > 1e-12 or abs(g - w2) > 1e-12:
+            ctx.violation("not-binomially-weighted-gap" if abs(g - w1) > 1e-12 else "not-summed-max-shapley-gain",
+                          f"symbolic run, n={n}: coefficient of {name} is {g!r}; binomial weight {w1!r}, summed max-Shapley "
+                          f"coefficient {w2!r}", case)
+            break
+    if abs(form.k) > 1e-12:
+        ctx.violation("not-binomially-weighted-gap", f"symbolic run, n={n}: constant term {form.k!r}", case)
+    ctx.case(("symbolic", n), True, sample={"n": n, "family": "symbolic", "coefficients_head": dict(sorted(got.items())[:6])})
+
+
 def run(ctx) -> None:
     rng = ctx.rng
     quick = ctx.tier == "quick"
+    for n in range(2, 8 if quick else 9):
+        if n % ctx.nshards == ctx.shard % ctx.nshards or n <= 4:
+            symbolic_case(ctx, n)
     # every single-coalition unit perturbation for n = 2..5 (isolates each weight 1/C(n,|S|))
     for n in (2, 3, 4, 5) if quick else (2, 3, 4, 5, 6):
         size = 1 << n
@@ -238,4 +313,7 @@ def run(ctx) -> None:
 
 
 def replay(ctx, case) -> None:
-    run_case(ctx, case)
+    if case.get("symbolic"):
+        symbolic_case(ctx, case["n"])
+    else:
+        run_case(ctx, case)
